@@ -1710,6 +1710,10 @@ def strip_model(I, s, cre, which, key='ws'):
     """result r = F(s) with s == pre ++ r ++ post, pre/post in cre*, r not starting/ending in
     cre.  F is an uninterpreted function per (method, charset) so that two uses on the same
     string denote the same term; the axioms are instantiated at each use."""
+    if which == 'strip':
+        # s.strip(cs) == s.lstrip(cs).rstrip(cs) (conformance-tested): one pair of functions, so
+        # a one-pass and a two-pass implementation denote the same terms
+        return strip_model(I, strip_model(I, s, cre, 'lstrip', key), cre, 'rstrip', key)
     F = z3.Function('str_%s_%s' % (which, key), z3.StringSort(), z3.StringSort())
     r = F(s)
     done = I.ghost.setdefault('strip_axioms', set())
